@@ -250,6 +250,22 @@ impl PoolMap {
         let mut removed_ids = vec![id.to_owned()];
         removed_ids.extend(self.calc_descendants(id));
 
+        // the removed entries leave the descendant aggregates of every surviving ancestor;
+        // this has to happen while the links still exist
+        let removed_set: HashSet<&ProposalShortId> = removed_ids.iter().collect();
+        for removed_id in &removed_ids {
+            if let Some(removed) = self.get(removed_id).cloned() {
+                for anc_id in self.calc_ancestors(removed_id) {
+                    if !removed_set.contains(&anc_id) {
+                        self.entries.modify_by_id(&anc_id, |e| {
+                            e.inner.sub_descendant_weight(&removed);
+                            e.evict_key = e.inner.as_evict_key();
+                        });
+                    }
+                }
+            }
+        }
+
         // update links state for remove, so that we won't update_descendants_index_key in remove_entry
         for id in &removed_ids {
             self.remove_entry_links(id);
